@@ -171,6 +171,11 @@ func buildOverlay(entries []Entry) (map[string][]byte, []string) {
 		for _, f := range e.Files {
 			add(filepath.Join(hdir, rel, f), filepath.Join(repoDir, rel, f))
 		}
+		if b, err := os.ReadFile(filepath.Join(hdir, rel, "zz_verif_deps.txt")); err == nil {
+			for _, f := range strings.Fields(string(b)) {
+				add(filepath.Join(hdir, f), filepath.Join(repoDir, f))
+			}
+		}
 		for _, f := range e.Extra {
 			add(filepath.Join(hdir, f), filepath.Join(repoDir, f))
 		}
